@@ -7,6 +7,8 @@ f30_0:
   call f25_3
   call f12_1
   lea d_f30_0(%rip),%rax
+  mov wvsv0@GOTPCREL(%rip),%rax
+  mov wvsv0(%rip),%rax
   ret
 .section .data.d_f30_0,"aw",@progbits
 .globl d_f30_0
